@@ -25,13 +25,14 @@ def replay(case):
     return qcommon.replay(ID, case)
 
 REQUIRED.update({"obs_restarts": 200, "control_histories": 200})
-RULE = ("histories of C17's alphabet with a save/restore step (pickle.dumps(db,2) taken before any connection "
-        "shutdown, all connections dropped, pickle.loads, fresh handlers) inserted at every position (DFS) or a "
+RULE = ("histories of C17's alphabet with a save/restore step (the real Main.savedb on a data directory before any "
+        "connection shutdown, all connections dropped, optional downtime during which only the clock moves, a new "
+        "Main loading the directory, fresh handlers) inserted at every position (DFS) or a "
         "random position; each is compared with the same history without the restart (control) so that only "
         "restart-induced differences count; non-trivial = a job was handed out; distinct = distinct op lists")
 LEVEL_TEXT = ("Exploration: restart inserted at every position of every history to depth 3 (quick) / 5 (thorough) "
               "plus random positions in random histories; after the restart the C16/C17 oracles run against a model "
               "in which every unfinished job is queued again in (priority, serial) order with its absolute "
               "timeout and finished jobs keep their outcome.")
-LEVEL_NOTE = "Same trusted base as C16; the saved state is the pickle Main.savedb would write at that instant."
-TECHNIQUE = "recorded history + model with restart step (pickle round trip of the real db), differential against the restart-free control history"
+LEVEL_NOTE = "Same trusted base as C16; the saved state is what Main.savedb writes at that instant."
+TECHNIQUE = "recorded history + model with restart step (real Main.savedb / Main.loaddb, with and without downtime), differential against the restart-free control history"
